@@ -200,10 +200,19 @@ AnsMsg(am, dir, master, slave) ==
   ELSE IF am.ph = "end" /\ master = am.m /\ am.m[2] \in MasterSet /\ ~am.await THEN am
   ELSE AnsFail(am, "C15:answer-reported-without-completed-answer")
 
+(* it is ebusd's turn to write and it did not (the next event is a received symbol or silence instead) *)
+AnsOwes(am, rm) ==
+  IF am.ph = "off" /\ rm.ph = "mack" /\ rm.crcok /\ rm.flaw = "" /\ Len(Cfg.answers) > 0 /\ BestAnswers(rm.m) # {}
+  THEN "C15:registered-answer-not-given"
+  ELSE IF am.ph = "resp" /\ ~am.await THEN "C15:response-not-sent-completely"
+  ELSE ""
+
 AnsEv(am, rm, e) ==
   CASE e[1] = "tx" -> [AnsTx(am, rm, e[2]) EXCEPT !.lastTx = e[2]]
-    [] e[1] = "rx" -> AnsRx(am, e[2], e[3])
-    [] e[1] \in {"to", "err", "close"} -> IF am.ph = "off" THEN am ELSE [am EXCEPT !.ph = "end", !.await = FALSE]
+    [] e[1] = "rx" -> IF AnsOwes(am, rm) # "" THEN AnsFail(AnsRx(am, e[2], e[3]), AnsOwes(am, rm)) ELSE AnsRx(am, e[2], e[3])
+    [] e[1] \in {"to", "err", "close"} ->
+         LET a2 == IF am.ph = "off" THEN am ELSE [am EXCEPT !.ph = "end", !.await = FALSE] IN
+         IF e[1] = "to" /\ AnsOwes(am, rm) # "" THEN AnsFail(a2, AnsOwes(am, rm)) ELSE a2
     [] e[1] = "msg" -> AnsMsg(am, e[2], e[3], e[4])
     [] OTHER -> am
 
